@@ -9,8 +9,8 @@ cargo test --offline --lib --test decode --test encode --test encodings 2>&1 | g
 cargo test --offline --doc 2>&1 | grep -E "^test result" | tr '\n' ' '; echo
 echo "-- demo with change:"
 cargo test --offline --test $demo 2>&1 | grep -E "^test result|^test .* (FAILED|ok)" | tr '\n' ' '; echo
-git stash push -q -- src
+git apply -R _seed/patch.diff
 echo "-- demo without change:"
 cargo test --offline --test $demo 2>&1 | grep -E "^test result" | tr '\n' ' '; echo
-git stash pop -q
+git apply _seed/patch.diff
 git status --short | grep "^ M" | head -2
